@@ -1007,6 +1007,30 @@ func callBuiltin(caller *frame, fn *ssa.Builtin, args []value) value {
 		}
 		return nil
 
+	case "clear": // clear(map) / clear(slice)
+		switch m := args[0].(type) {
+		case *symMap:
+			if m != nil {
+				for _, e := range m.entries {
+					e.live = false
+				}
+				m.entries = nil
+				m.idx = map[string]*mapEntry{}
+				m.nsym, m.nlive = 0, 0
+			}
+		case []value:
+			if sl, ok := fn.Type().(*types.Signature).Params().At(0).Type().Underlying().(*types.Slice); ok {
+				for k := range m {
+					m[k] = zero(sl.Elem())
+				}
+			} else {
+				panic("clear: unsupported operand")
+			}
+		default:
+			panic(fmt.Sprintf("clear: unsupported operand %T", m))
+		}
+		return nil
+
 	case "print", "println": // print(any, ...)
 		ln := fn.Name() == "println"
 		var buf bytes.Buffer
